@@ -1657,6 +1657,8 @@ KILLS = [
     ('falcon/response_helpers.py', '    normalized_name = name.lower()\n', '    normalized_name = name\n',
      '_header_property#fset-stores-the-transformed-value-under-the-lower-case-name-and-nothing-else'),
     # 13 the app option for Secure is ignored
+    # the ASCII fallback of a download filename lets Unicode letters through
+    ('falcon/util/misc.py', "_UNSAFE_CHARS = re.compile(r'[^a-zA-Z0-9.-]')", "_UNSAFE_CHARS = re.compile(r'[^\\w.-]')", 'secure_filename#every-code-point-is-mapped-into-the-portable-ascii-filename-alphabet'),
     ('falcon/response.py', '        is_secure = self.options.secure_cookies_by_default if secure is None else secure\n', '        is_secure = True if secure is None else secure\n',
      'Response.set_cookie#cookie-carries-exactly-the-requested-attributes'),
     # 14 samesite is not validated
@@ -1699,6 +1701,50 @@ HARMLESS = [
     ('falcon/response.py', "        if media_type is not None and 'content-type' not in headers:\n            headers['content-type'] = media_type\n",
      "        if media_type is not None:\n            if 'content-type' not in headers:\n                headers['content-type'] = media_type\n"),
 ]
+
+
+# --- misc.secure_filename: the ASCII fallback of download filenames (callee contract of downloadable_as / viewable_as) ----------------
+# The function is a per-character map after a normalisation that works code point by code point (NFKD decomposes each code point on its own;
+# canonical reordering only permutes combining marks), so its output alphabet is decided by COMPLETE ENUMERATION of the 1,112,064 Unicode scalar
+# values -- a finite decision, run natively on the real function, like the encoder tables of C10.
+
+
+@harness(PROP, 'falcon.util.misc:secure_filename', name='secure_filename_alphabet')
+def secure_filename_alphabet(v):
+    if v.concrete:
+        return
+    import re as _re
+
+    fn = v.real('falcon.util.misc:secure_filename')
+    safe = _re.compile(r'[A-Za-z0-9._-]+\Z')
+    bad, dotted = [], []
+    for cp in range(0x110000):
+        if 0xD800 <= cp <= 0xDFFF:
+            continue
+        ch = chr(cp)
+        for text in (ch, 'a' + ch + 'b'):
+            try:
+                r = fn(text)
+            except Exception as e:  # noqa: BLE001
+                r = e
+            if not isinstance(r, str) or safe.match(r) is None:
+                bad.append((cp, repr(r)[:40]))
+                break
+            if r.startswith('.'):
+                dotted.append(cp)
+                break
+        if len(bad) > 5:
+            break
+    v.check('every-code-point-is-mapped-into-the-portable-ascii-filename-alphabet', not bad, first=bad[:5])
+    v.check('result-never-starts-with-a-dot', not dotted, first=dotted[:5])
+    out = None
+    try:
+        fn('')
+    except ValueError as e:
+        out = e
+    v.check('empty-name-raises-ValueError', isinstance(out, ValueError))
+    v.cover('enumerated')
+
 
 ASSUMPTIONS = [
     'str.lower is an uninterpreted total function str -> str shared by the program and the specification; the only fact assumed is idempotence '
